@@ -168,13 +168,15 @@ impl Report {
         for error in &self.machinery_errors {
             eprintln!("MACHINERY: {}", error);
         }
-        if !self.machinery_errors.is_empty() {
-            return 2;
-        }
+        // a violation is a history / input that was re-executed on the real code: it stands whatever else went wrong in the
+        // run.  A machinery problem decides the exit code only when nothing was found.
         for (violation, replay) in &self.violations {
             println!("VIOLATION property={} replay={}", violation.property, replay);
             println!("  signature: {}", violation.signature);
             println!("  detail: {}", violation.detail);
+        }
+        if !self.machinery_errors.is_empty() && self.violations.is_empty() {
+            return 2;
         }
         println!("{} {}: {} new violation(s), {} known finding(s), {:.1}s", self.property, self.tier.name(), self.violations.len(), self.known_hit.len(), wall);
         if self.violations.is_empty() { 0 } else { 1 }
